@@ -260,6 +260,10 @@ impl Ctx {
         if pos >= self.cfg.len {
             let p = if self.cfg.kind == K::IterNonFused { "C05" } else { "C01" };
             self.viol(p, "beyond-source", format!("{what} on thread {tid} delivered position {pos} but the source has {} elements", self.cfg.len));
+            if self.cfg.kind == K::IterNonFused {
+                // the wrapped sequential iterator ends at its first None: anything delivered afterwards is not what it would yield
+                self.viol("C04", "beyond-source", format!("{what} on thread {tid} delivered an element the wrapped sequential iterator only produces after its first None (polled again after the end)"));
+            }
             return None;
         }
         if let Some(s) = s {
